@@ -97,6 +97,9 @@ def gen_cases(ctx, n, kinds=A.KINDS, big=False):
     for i in range(n):
         kind = kinds[i % len(kinds)]
         g = A.GEN[kind]
+        if ctx.rng.random() < (0.08 if big else 0.02):
+            cases.append((kind, A.gen_scaled(ctx.rng, kind)))      # the scale axis: 255 ... 65537 frames, 15 ... 257 items
+            continue
         if big and kind in ("data3d", "emg", "force3d", "platdata") and ctx.rng.random() < 0.15:
             v = g(ctx.rng, big=ctx.rng.choice([60, 300]))
         else:
@@ -109,6 +112,11 @@ def shape_tags(kind, v):
     tags = [kind]
     items = v[-1] if kind != "data2d" else v[6]
     tags.append(f"items={min(len(items), 3)}{'+' if len(items) > 3 else ''}")
+    if len(items) >= 15:
+        tags.append("scale:items>=15")
+    nfr = {"data3d": 1, "emg": 2, "force3d": 2, "platdata": 2}.get(kind)
+    if nfr is not None and v[nfr] >= 255:
+        tags.append("scale:frames>=255")
     if kind in A.NCOMP:
         fl = [f for t in (v[-1]) for f in (t[1] if kind != "platdata" else t)]
         if any(f is None for f in fl):
